@@ -140,6 +140,25 @@ std::vector<K> place(const std::vector<long long> &off, int where, Rng &rng, boo
             std::sort(d.begin(), d.end());
             return d;
         }
+        if (where == 5) {
+            // full span: the data starts near lowest() and ends at max-1, and the tail is a run of (max-2) followed by max-1
+            // (a segment may then start exactly at the last key; bucket tables have to cover the whole key range)
+            size_t nn = off.size();
+            size_t tail = std::min<size_t>(nn > 2 ? nn - 2 : 0, 3 + rng.below(12));
+            Wide<K> cur = lo + (Wide<K>) rng.below(3);
+            size_t body = nn - tail - (nn > tail ? 1 : 0);
+            Wide<K> stride = body > 1 ? (room - 4) / (Wide<K>) body : 1;
+            if (stride < 1) stride = 1;
+            for (size_t i = 0; i < body; ++i) {
+                d.push_back(K(std::min<Wide<K>>(cur, hi - 2)));
+                if (i + 1 < off.size() && off[i + 1] != off[i]) cur += 1 + (Wide<K>) (rng.next() % (uint64_t) std::min<Wide<K>>(stride, (Wide<K>) 1 << 60));
+            }
+            std::sort(d.begin(), d.end());
+            for (size_t i = 0; i < tail; ++i) d.push_back(K(hi - 1));
+            if (d.size() < nn || d.empty()) d.push_back(K(hi));
+            wide = sizeof(K) >= 4;
+            return d;
+        }
         if (where == 4 && sizeof(K) >= 4) {
             // clustered: dense groups (steps of 0 or 1) separated by gaps of 2^j for random j: steep and flat segments side by side
             size_t big = 0;
